@@ -5,6 +5,13 @@ use crate::report::Report;
 use crate::Ctx;
 
 pub mod c01;
+pub mod c02;
+pub mod c03;
+pub mod c09;
+pub mod c10;
+pub mod c11;
+pub mod c12;
+pub mod codec;
 
 /// (monitor name, property id)
 pub const MONITORS: &[(&str, &str)] = &[
@@ -12,6 +19,24 @@ pub const MONITORS: &[(&str, &str)] = &[
     ("c01-state", "C01"),
     ("c01-map", "C01"),
     ("c01-agg", "C01"),
+    ("c02-parts", "C02"),
+    ("c02-body", "C02"),
+    ("c02-whole", "C02"),
+    ("c03-history", "C03"),
+    ("c04-text", "C04"),
+    ("c05-parse", "C05"),
+    ("c06-binary", "C06"),
+    ("c08-laws", "C08"),
+    ("c09-length", "C09"),
+    ("c10-lattice", "C10"),
+    ("c11-oversize", "C11"),
+    ("c11-real", "C11"),
+    ("c11-huge-slice", "C11"),
+    ("c12-stream", "C12"),
+    ("c13-compare", "C13"),
+    ("c14-buffers", "C14"),
+    ("c15-gates", "C15"),
+    ("c15-generated", "C15"),
 ];
 
 pub fn property_of(monitor: &str) -> Option<&'static str> {
@@ -30,6 +55,24 @@ pub fn run(monitor: &str, ctx: &Ctx) -> Option<Report> {
         "c01-state" => c01::run_state(ctx, &mut rep),
         "c01-map" => c01::run_map(ctx, &mut rep),
         "c01-agg" => c01::run_agg(ctx, &mut rep),
+        "c02-parts" => c02::run_parts(ctx, &mut rep),
+        "c02-body" => c02::run_body(ctx, &mut rep),
+        "c02-whole" => c02::run_whole(ctx, &mut rep),
+        "c08-laws" => c02::run_laws(ctx, &mut rep),
+        "c03-history" => c03::run(ctx, &mut rep),
+        "c04-text" => codec::run_c04(ctx, &mut rep),
+        "c05-parse" => codec::run_c05(ctx, &mut rep),
+        "c06-binary" => codec::run_c06(ctx, &mut rep),
+        "c09-length" => c09::run(ctx, &mut rep),
+        "c10-lattice" => c10::run(ctx, &mut rep),
+        "c11-oversize" => c11::run(ctx, &mut rep),
+        "c11-real" => c11::run_real(ctx, &mut rep),
+        "c11-huge-slice" => c11::run_huge_slice(ctx, &mut rep),
+        "c12-stream" => c12::run_stream(ctx, &mut rep),
+        "c13-compare" => c12::run_compare(ctx, &mut rep),
+        "c14-buffers" => codec::run_c14(ctx, &mut rep),
+        "c15-gates" => codec::run_c15_gates(ctx, &mut rep),
+        "c15-generated" => codec::run_c15_generated(ctx, &mut rep),
         _ => return None,
     }
     Some(rep)
@@ -37,9 +80,17 @@ pub fn run(monitor: &str, ctx: &Ctx) -> Option<Report> {
 
 /// Re-execute one recorded case.  Returns false if the case is not understood.
 pub fn replay(monitor: &str, case: &Json, ctx: &Ctx, rep: &mut Report) -> bool {
-    let _ = ctx;
     match monitor {
         m if m.starts_with("c01-") => c01::replay(case, rep),
+        "c02-parts" | "c02-body" | "c02-whole" | "c08-laws" => c02::replay(case, rep),
+        "c03-history" => c03::replay(case, rep),
+        "c04-text" | "c05-parse" | "c06-binary" | "c14-buffers" | "c15-gates" | "c15-generated" => {
+            codec::replay(case, rep)
+        }
+        "c09-length" => c09::replay(case, rep),
+        "c10-lattice" => c10::replay(case, rep),
+        m if m.starts_with("c11-") => c11::replay(case, ctx, rep),
+        "c12-stream" | "c13-compare" => c12::replay(case, ctx, rep),
         _ => false,
     }
 }
